@@ -137,6 +137,13 @@ let cmd_dispatch toks =
        ^ " " ^ (if safe then "safe" else "plain") ^ " " ^ (if lab then "labelled" else "unlabelled"))
   | _ -> raise (Parse "dispatch")
 
+(* ---- C15: c15align nT M then M columns of nT values -> the T x M data block, row-major ---- *)
+let cmd_c15align toks =
+  let (nt, r) = pop_int toks in let (m, r) = pop_int r in
+  let (cols, _) = pop_n (fun r -> pop_n pop_fl nt r) m r in
+  let block = extract_frame nan (nat_of_int nt) cols in
+  String.concat " " (List.map hx (List.concat block))
+
 let () =
   try
     while true do
@@ -153,6 +160,7 @@ let () =
           | "sim" -> cmd_sim toks
           | "dispatch" -> cmd_dispatch toks
           | "delaydraw" -> cmd_delaydraw toks
+          | "c15align" -> cmd_c15align toks
           | "iface" -> cmd_iface toks
           | _ -> "ERR unknown command " ^ cmd)
           with e -> "ERR " ^ Printexc.to_string e in
